@@ -277,6 +277,27 @@ def leaf(ctx, report, rule, facts, config, im, bodies, label):
               "declared reads %s / writes %s but fetch borrows shared %s / exclusive %s%s" % (
                   decl.get("reads"), decl.get("writes"), sorted(shared), sorted(excl), (" and also uses " + ", ".join(other)) if other else ""),
               site=b.loc(), config=config)
+    # what is borrowed is what is handed back: on every way through fetch, a guard a fetch primitive produced (the Some of a
+    # try_ form, the result of a panicking form) is part of the returned value - borrowed and let go again is not "borrows it"
+    try:
+        from . import semq as Q
+        prims = [x.key for x in facts.bodies.values() if not x.is_closure and x.self_head == A.WORLD and x.name in SHARED_PRIMS | EXCL_PRIMS]
+        ev, ends = Q.sem(ctx, facts, b, opaque=prims)
+        lost = []
+        for e in Q.returns(ends):
+            inside = set(subterms(e.ret))
+            for x in e.path.events:
+                if x[0] != "call" or x[2].key not in prims:
+                    continue
+                if x[2].name.startswith("try_") and e.path.variant(x[4]) == "None":
+                    continue
+                if x[4] not in inside:
+                    lost.append(x[2].name)
+        report.ob(rule, "%s/held" % label, not lost, "every guard fetch obtains is part of what it returns" if not lost else
+                  "fetch obtains a guard through %s and returns without it: the borrow is released before the value is dropped, and the resource the type reports is not borrowed" % ", ".join(sorted(set(lost))),
+                  site=b.loc(), config=config)
+    except Exception as e_:
+        report.ob(rule, "%s/held" % label, False, "cannot tabulate fetch (%s: %s)" % (type(e_).__name__, e_), site=b.loc(), config=config)
     return decl
 
 
